@@ -358,6 +358,10 @@ def huge_tok(rng, kind, very=True):
     es = [10 ** 6, -10 ** 6, 999999, -999983]
     if very:
         es += [1 << 40, -(1 << 40), (1 << 40) + 127, -127 * (1 << 30)]
+        # the ends of the isize range: bit_len(B) * exponent, exponent + digits and -exponent leave it
+        es += [1 << 61, -(1 << 61), (1 << 61) - 1, (1 << 62) + 5, -(1 << 62) - 5, (1 << 63) - 1, -(1 << 63) + 1]   # isize::MIN itself cannot be passed by the shared harness (hlib::isz)
+        if sig % base == 0:
+            sig += 1    # Repr::new must not have to move a digit into an exponent at the end of the range
     e = rng.choice(es)
     if kind in FK:
         return "%s:%x:%s:%s" % (kind, rng.choice([0, 3]), hx(sig), hx(e))
